@@ -158,7 +158,9 @@ class _P:
                     raise WireError('quoted', 'bad escape \\%c' % d,
                                     self.pos - 1)
                 out.append(d)
-            elif c in (0x0d, 0x0a, 0x00):
+            elif c in (0x0d, 0x0a, 0x00) or c >= 0x80:
+                # QUOTED-CHAR is a TEXT-CHAR, CHAR is %x01-7F (UTF8=ACCEPT
+                # is not advertised)
                 raise WireError('quoted', 'byte 0x%02x inside quoted string'
                                 % c, self.pos - 1)
             else:
